@@ -32,6 +32,8 @@ pub enum Form {
   TryLockEx,
   TryLockSh,
   Unlock,
+  /// threaded engine: a producer pauses until everything definitely sent so far was received
+  AwaitDrain,
 }
 
 impl Form {
@@ -61,6 +63,7 @@ impl Form {
       Form::TryLockEx => "try_lock_exclusive",
       Form::TryLockSh => "try_lock_shared",
       Form::Unlock => "unlock",
+      Form::AwaitDrain => "await_drain",
     }
   }
   pub fn is_send(self) -> bool {
@@ -95,6 +98,7 @@ impl Form {
         | Form::StreamNext
         | Form::LockEx
         | Form::LockSh
+        | Form::AwaitDrain
     )
   }
 }
@@ -230,14 +234,43 @@ impl Log {
     g.len() - 1
   }
   pub fn end(&self, idx: usize, f: impl FnOnce(&mut Ev)) {
-    let mut g = self.evs.lock().unwrap();
-    let ev = &mut g[idx];
-    f(ev);
-    ev.ret = vh_core::stamp();
+    let (sent, recvd) = {
+      let mut g = self.evs.lock().unwrap();
+      let ev = &mut g[idx];
+      f(ev);
+      ev.ret = vh_core::stamp();
+      if ev.form.is_send() {
+        (ev.n_ok as u64, 0)
+      } else if ev.form.is_recv() {
+        (0, ev.vals.len() as u64)
+      } else {
+        (0, 0)
+      }
+    };
+    // definite counts for the drain phases of the threaded engine (see engine::await_drain)
+    if sent > 0 {
+      DEF_SENT.fetch_add(sent, std::sync::atomic::Ordering::SeqCst);
+    }
+    if recvd > 0 {
+      DEF_RECV.fetch_add(recvd, std::sync::atomic::Ordering::SeqCst);
+      let _g = PHASE_LOCK.lock();
+      PHASE_CV.notify_all();
+    }
   }
   pub fn snapshot(&self) -> Vec<Ev> {
     self.evs.lock().unwrap().clone()
   }
+}
+
+/// Values definitely sent (send operations that reported them accepted) / received since the
+/// last `reset_phase_counters`, over all logs of the process.
+pub static DEF_SENT: std::sync::atomic::AtomicU64 = std::sync::atomic::AtomicU64::new(0);
+pub static DEF_RECV: std::sync::atomic::AtomicU64 = std::sync::atomic::AtomicU64::new(0);
+pub static PHASE_LOCK: std::sync::Mutex<()> = std::sync::Mutex::new(());
+pub static PHASE_CV: std::sync::Condvar = std::sync::Condvar::new();
+pub fn reset_phase_counters() {
+  DEF_SENT.store(0, std::sync::atomic::Ordering::SeqCst);
+  DEF_RECV.store(0, std::sync::atomic::Ordering::SeqCst);
 }
 
 /// Merges per-thread logs into one vector ordered by call stamp.
